@@ -103,7 +103,7 @@ package keeper
 //@   ensures returnedError == nil && fromBech32(owner) != modaddr("cfevesting") ==> $bal[modaddr("cfevesting")][$vestingDenom] == old($bal[modaddr("cfevesting")][$vestingDenom]) - withdrawn.Amount
 //@   ensures returnedError == nil && fromBech32(owner) != modaddr("cfevesting") ==> $bal[fromBech32(owner)][$vestingDenom] == old($bal[fromBech32(owner)][$vestingDenom]) + withdrawn.Amount
 //@   ensures forall a: str :: {$bal[a]} a != modaddr("cfevesting") && a != fromBech32(owner) ==> $bal[a] == old($bal[a])
-//@   prop C06 C05 C20 C18
+//@   prop C06 C05 C20 C18 C09 C17
 //@ loop Keeper.WithdrawAllAvailable#1
 //@   invariant 0 <= \i && \i <= len(accVestingPools.VestingPools)
 //@   invariant !toWithdraw.IsNil() && toWithdraw == sumWd($pIL[owner], $pS[owner], $pW[owner], $pLockEnd[owner], $blockTime, \i) && toWithdraw >= 0
@@ -170,7 +170,7 @@ package keeper
 //@   ensures forall d: str :: {$bal[modaddr("cfevesting")][d]} d != $vestingDenom ==> $bal[modaddr("cfevesting")][d] == old($bal[modaddr("cfevesting")][d])
 //@   // acceptance witnesses: the whole balance can be locked, and so can nothing at all beyond the checks' boundaries
 //@   reach [accepts-whole-balance] err == nil && amount > 0 && amount == balance.Amount
-//@   prop C05 C20
+//@   prop C05 C20 C09 C17
 
 //@ // ---- typed ghost views of vesting types and vesting-account traces (accessor contracts assumed) ----
 //@ ghost vtFound [str]bool
@@ -226,7 +226,7 @@ package keeper
 //@   ensures err == nil ==> acc != nil && acc.BaseVestingAccount != nil && acc.BaseVestingAccount.BaseAccount != nil && isNewCVA(to, originalVesting, startTime, vestingEnd)
 //@   ensures err != nil ==> allAccountsUnchanged()
 //@   ensures otherAccountsUnchanged(to)
-//@   prop C09 C08 C20
+//@   prop C09 C08 C20 C17
 //@
 //@ func (k Keeper) newVestingAccount(ctx, toAddress, amount, free, lockEnd, vestingEnd) (err)
 //@   panic_requires validDenom($vestingDenom) && amount <= 1e60
@@ -247,7 +247,7 @@ package keeper
 //@   ensures err != nil ==> $bal == old($bal)
 //@   ensures forall a: str :: {$bal[a]} a != modaddr("cfevesting") && a != toAddress ==> $bal[a] == old($bal[a])
 //@   reveal chopRound
-//@   prop C08 C09 C20
+//@   prop C08 C09 C20 C05 C17
 
 //@ // index of the last pool named `name` among the first n pools of a row (-1: none) — what the lookup loop selects
 //@ spec func lastNamed(names [int]str, name str, n int) int = n <= 0 ? -1 : (names[n - 1] == name ? n - 1 : lastNamed(names, name, n - 1))
@@ -459,7 +459,7 @@ package keeper
 //@     && (forall i :: {$pIL[addr][i]} 0 <= i && i < n ==> poolUnchanged(addr, i) && $pW[addr][i] == old($pW[addr][i])))
 //@   ensures err == nil && fromBech32(addr) != modaddr("cfevesting") ==>
 //@     $bal[modaddr("cfevesting")][$vestingDenom] == old($bal[modaddr("cfevesting")][$vestingDenom]) + amount
-//@   prop C05 C20
+//@   prop C05 C20 C09 C17
 
 //@ // ---- C13: only governance changes the vesting denomination, and only while no pool exists ----
 //@ spec func vpKey() str = global("types.ParamsKey")
